@@ -919,8 +919,12 @@ def weave_parse_prefix(w, sc):
     j = statement_end(w, i)
     w.rewrite_lines("R16-parse-exits", i, j, ["        return parse_rejected();"], note="the Err(..) value (error factories applied to the source) is outside the property")
     # the cut: first statement after the block `if !<factories>.is_empty() { return .. }`
-    k = w.find(r"^    if !\w+\.is_empty\(\) \{$")
+    # the [tag:error_check] block: the `if .. {` that encloses the rejecting exit
+    rj = w.find(r"^        return parse_rejected\(\);$")
+    k = max(x for x in range(0, rj) if re.match(r"^    if .* \{$", w.lines[x]))
     e = w.block_end(k)
+    if not (k < rj < e):
+        raise LostAnchor(f"{w.src.rel} fn parse: the block around the rejecting exit not found")
     last = len(w.lines) - 1
     if w.lines[last] != "}":
         raise LostAnchor("src/parser.rs fn parse: closing brace not found")
@@ -1479,8 +1483,12 @@ def weave_parse_full(w, sc, flavor):
     i = w.find(r"^        return Err\(\w+$")
     j = statement_end(w, i)
     w.rewrite_lines("R16-parse-exits", i, j, ["        return parse_rejected();"], note="the Err(..) value (error factories applied to the source) is outside the property")
-    k = w.find(r"^    if !\w+\.is_empty\(\) \{$")
+    # the [tag:error_check] block: the `if .. {` that encloses the rejecting exit
+    rj = w.find(r"^        return parse_rejected\(\);$")
+    k = max(x for x in range(0, rj) if re.match(r"^    if .* \{$", w.lines[x]))
     e = w.block_end(k)
+    if not (k < rj < e):
+        raise LostAnchor(f"{w.src.rel} fn parse: the block around the rejecting exit not found")
     w.lines[e + 1 : e + 1] = sc["parse.checked." + flavor].replace("$TERM", term).replace("$NEXT", nxt).replace("$TOKENS", toks).rstrip("\n").split("\n")
     # the re-association passes: one statement with nested calls, or several statements -- in either case a chain
     # term -> .. -> the tree handed on; nested calls are bound to locals (R8), a proof hint follows each call
